@@ -1,5 +1,7 @@
 import AasVerif.Lemmas.PyEmit
 import AasVerif.Lemmas.PyParen
+import AasVerif.Lemmas.PyRules
+import AasVerif.Lemmas.SdkVerify
 /-!
 # C08 — Generated Python verification implements the invariants exactly
 
@@ -82,5 +84,67 @@ example :
         [.not (.paren (.compare (.attr .that .prop [97]) (.cmp .lt) (.int 3))), .attr .that .prop [98]]) := by
   intro self e
   exact ⟨by decide, by decide, rfl⟩
+
+/-! ## (a) parse rules
+
+`rules_preserve : ofPy a = .ok e → ∀ ρ, Expr.eval ρ e = evalPy ρ a` is planned, not proved
+(see `design.d/C08.md`); `ofPy` and `evalPy` are tied to the real rules and to CPython by the
+`rules` and `expr` correspondence streams. -/
+
+open AasVerif.PyAst in
+/-- The dispatch order the model bakes in is the order of `_CHAIN_OF_RULES` in the source. -/
+theorem chain_order :
+    Gen.PyRules.chain =
+      [.Comparison, .IsIn, .AnyOrAll, .Call, .Constant, .Implication, .Member, .Index, .Name,
+       .IsNoneOrIsNotNone, .Not, .AndOrOr, .AddOrSub, .Expression, .JoinedStr, .Assignment, .Return] := rfl
+
+open AasVerif.PyAst in
+/-- `_AST_COMPARATOR_TO_OURS` maps every Python comparison operator to our comparator of the
+same meaning (and is not defined for `in`, `not in`, `is`, `is not`). -/
+theorem comparator_table_faithful (f : FloatOps) (op : PyCmpOp) (c : Cmp) (h : oursOf op = some c)
+    (l r : Val) : cmpOp f op l r = cmpVals f c l r := oursOf_cmpOp f op c h l r
+
+open AasVerif.PyAst in
+/-- A comprehension with `if` conditions is never accepted (it used to be accepted with the
+conditions silently dropped). -/
+theorem rules_reject_filtered_generators (target iter c : PyAst) (cs : List PyAst) (isAsync : Bool)
+    (g : Gen) : ofPyGens [.mk target iter (c :: cs) isAsync] ≠ .ok g := by
+  unfold ofPyGens
+  split
+  · next heq =>
+    simp only [List.cons.injEq, Comp.mk.injEq, and_true] at heq
+    obtain ⟨_, _, hifs, _⟩ := heq
+    subst hifs
+    simp
+  · simp
+
+/-! ## (c) the generated verification -/
+
+open AasVerif.Sdk in
+/-- **verify_exact, invariants of one value.** When no invariant raises, the errors reported for
+a value are exactly its falsified invariants: description verbatim, path empty (relative to
+the value). -/
+theorem verify_invariants_exact (ρ : Env) (self : Val) (invs : List Inv)
+    (h : (verifyInvs ρ self invs).raised = none) (d : Text) (p : Path) :
+    (d, p) ∈ (verifyInvs ρ self invs).errors ↔
+      (p = [] ∧ ∃ inv ∈ invs, inv.description = d ∧ Falsified ρ self inv) :=
+  verifyInvs_exact ρ self invs h d p
+
+open AasVerif.Sdk in
+/-- Verification raises only where evaluating an invariant itself raises, and then the same
+exception. -/
+theorem verify_raises_only_where_invariant_raises (ρ : Env) (self : Val) (invs : List Inv) (o : Out)
+    (h : (verifyInvs ρ self invs).raised = some o) : ∃ inv ∈ invs, Raises ρ self inv o :=
+  verifyInvs_raises ρ self invs o h
+
+open AasVerif.Sdk in
+/-- `verify` of an instance of a known class: its invariants first, then the properties in
+declaration order (the order of the emitted `transform_<Cls>`). -/
+theorem verify_instance_unfold (m : MM) (ρ : Env) (oid : Nat) (cn : Text) (fields : List (Text × Val))
+    (c : Cls) (hc : m.findCls cn = some c) :
+    verify m ρ (.inst oid cn fields) =
+      VRes.seq (verifyInvs ρ (.inst oid cn fields) c.invs)
+        (VRes.seqAll (c.props.map (fun p => verifyField m ρ p fields))) := by
+  simp [verify, verifyInst, hc]
 
 end AasVerif.Props.C08
